@@ -399,6 +399,76 @@ var tErrno = map[string][]string{
 
 var nFaultRuns, nRolledBack, nCompleted int64
 
+// cutReader delivers the first cut bytes of data and then fails.
+type cutReader struct {
+	data []byte
+	cut  int
+	pos  int
+}
+
+var errCut = errors.New("injected failure of the content reader")
+
+func (c *cutReader) Read(p []byte) (int, error) {
+	if c.pos >= c.cut {
+		return 0, errCut
+	}
+	n := copy(p, c.data[c.pos:c.cut])
+	c.pos += n
+	return n, nil
+}
+
+// writeFaults: a Write whose content cannot be copied completely must say so. (What such a Write leaves in
+// the file is not the property's business; that it is never reported as a Write that finished is: a Read
+// would otherwise return the truncated contents of a "successful" Write.)
+func writeFaults(r *vlib.Run, base string) {
+	dir := filepath.Join(base, "writefaults")
+	os.MkdirAll(dir, 0o777)
+	defer os.RemoveAll(dir)
+	n := 0
+	for _, oldLen := range []int{0, 300, 70000} {
+		for _, newLen := range []int{1, 100, 5000, 70000, 300000} {
+			for _, cut := range []int{0, 1, newLen / 2, newLen - 1} {
+				if cut >= newLen || cut < 0 {
+					continue
+				}
+				file := filepath.Join(dir, fmt.Sprintf("w%d", n))
+				n++
+				if oldLen > 0 {
+					os.WriteFile(file, payload.Make("old", int64(oldLen), oldLen), 0o666)
+				}
+				data := payload.Make("new", int64(n), newLen)
+				err := lockedfile.Write(file, &cutReader{data: data, cut: cut}, 0o666)
+				r.Eval(1)
+				r.Count("writes_whose_content_reader_fails", 1)
+				if err == nil {
+					got, _ := os.ReadFile(file)
+					if !bytes.Equal(got, data) {
+						r.Violation(fmt.Sprintf("write-reported-success-on-partial-copy old=%d new=%d cut=%d", oldLen, newLen, cut),
+							fmt.Sprintf("lockedfile.Write returned nil although its content reader failed after %d of %d bytes; the file now holds %d bytes, which a Read returns as the contents of a Write that finished", cut, newLen, len(got)),
+							fcase{Kind: "write-reported-success-on-partial-copy", OldLen: oldLen, NewLen: newLen, Fault: fmt.Sprintf("content reader fails after %d bytes", cut)})
+						return
+					}
+				} else if !errors.Is(err, errCut) {
+					r.Violation(fmt.Sprintf("write-reported-another-error old=%d new=%d cut=%d", oldLen, newLen, cut),
+						fmt.Sprintf("lockedfile.Write whose content reader failed returned %v instead of the reader's error", err),
+						fcase{Kind: "write-reported-another-error", OldLen: oldLen, NewLen: newLen, Fault: fmt.Sprintf("content reader fails after %d bytes", cut)})
+					return
+				}
+				// and the file is usable afterwards: a complete Write, then Read
+				if err := lockedfile.Write(file, bytes.NewReader(data), 0o666); err != nil {
+					r.Violation("write-after-failed-write", "a complete Write after a failed one returned "+err.Error(), fcase{Kind: "write-after-failed-write", OldLen: oldLen, NewLen: newLen})
+					return
+				}
+				if got, err := lockedfile.Read(file); err != nil || !bytes.Equal(got, data) {
+					r.Violation("read-after-failed-write", fmt.Sprintf("Read after failed Write + complete Write returned %d bytes, err %v", len(got), err), fcase{Kind: "read-after-failed-write", OldLen: oldLen, NewLen: newLen})
+					return
+				}
+				os.Remove(file)
+			}
+		}
+	}
+}
+
 func faultRuns(r *vlib.Run, base string, W int) {
 	child := filepath.Join(os.Getenv("VERIF_BUILD"), "c07child")
 	type rel struct{ old, new int }
@@ -532,11 +602,12 @@ func main() {
 		return
 	}
 	vlib.Main("C07", "exploration", 12*time.Minute, func(r *vlib.Run) {
-		r.Rule("schedules: rounds of P processes (2-6) x G goroutines (2-6) released together on F files (every second process with its standard input closed, so that files land on descriptor 0); each client does K operations (Read via lockedfile.Read or Open+delayed ReadAll, Write of a unique payload, Transform to a unique payload, Transform whose function fails) with unique self-describing payloads of 24B..256KiB and seeded delays at the lockedfile hooks; each file's history (plus a final quiescent Read) is checked with porcupine against a register model; every fifth round has no blind Writes and is also checked by the chain checker; every fifth round writes empty contents too and starts half of its files empty (EMPTY is then an ordinary value of the register); every fifth round starts with no files at all (12-31 names, first operations race to create them; a missing and an empty file are the one value EMPTY). faults: for 9 (quick) / 15 old/new length relations a dry run under strace lists the file operations of one Transform, then one run per (operation, errno), plus failing function and RLIMIT_FSIZE short writes. Non-trivial/distinct = per-file histories containing overlapping operations of different kinds + confirmed fault injections.")
+		r.Rule("schedules: rounds of P processes (2-6) x G goroutines (2-6) released together on F files (every second process with its standard input closed, so that files land on descriptor 0); each client does K operations (Read via lockedfile.Read or Open+delayed ReadAll, Write of a unique payload, Transform to a unique payload, Transform whose function fails) with unique self-describing payloads of 24B..256KiB and seeded delays at the lockedfile hooks; each file's history (plus a final quiescent Read) is checked with porcupine against a register model; every fifth round has no blind Writes and is also checked by the chain checker; every fifth round writes empty contents too and starts half of its files empty (EMPTY is then an ordinary value of the register); every fifth round starts with no files at all (12-31 names, first operations race to create them; a missing and an empty file are the one value EMPTY). faults: for 9 (quick) / 15 old/new length relations a dry run under strace lists the file operations of one Transform, then one run per (operation, errno), plus failing function and RLIMIT_FSIZE short writes; 57 Writes whose content reader fails after 0 / 1 / half / all but one of its bytes must report that error. Non-trivial/distinct = per-file histories containing overlapping operations of different kinds + confirmed fault injections.")
 		r.Assume("CLOCK_MONOTONIC is one clock for all processes of the machine; porcupine v1.3.0 decides linearizability of the recorded history (timeout => inconclusive)")
 		base := vlib.Scratch()
 		W := runtime.NumCPU()
 		faultRuns(r, base, W)
+		writeFaults(r, base)
 		r.Set("fault_runs", atomic.LoadInt64(&nFaultRuns))
 		r.Set("fault_runs_transform_returned_error", atomic.LoadInt64(&nRolledBack))
 		r.Set("fault_runs_transform_returned_nil", atomic.LoadInt64(&nCompleted))
